@@ -77,6 +77,8 @@ TChkBuilt ==
              /\ InCodespace(read, B.map[i].code)
              /\ Cardinality(Defs(read, B.map[i].code)) = 1
              /\ \A d \in Defs(read, B.map[i].code) : Utf16Decode(d) = B.map[i].cps
+             \* ... and the library's own parser reads the same value back from the text it generated
+             /\ B.libParsed /\ B.map[i].lib.some /\ Utf16Decode(B.map[i].lib.bytes) = B.map[i].cps
         \* and nothing else is defined: every entry of the text concerns only codes that were put in
         /\ \A j \in 1..Len(read.entries) :
              LET e == read.entries[j] IN
